@@ -25,9 +25,17 @@ valid = B.valid_case
 
 @st.composite
 def _case(draw):
-    cfg = draw(B.cfg_strategy())
+    family = draw(st.sampled_from(['mixed', 'mixed', 'mixed', 'same-key']))
+    cfg = draw(B.cfg_strategy(rets=(0.25, 0.25, 4.0)) if family == 'same-key' else B.cfg_strategy())
     bdur = draw(st.sampled_from([0, 0, 3 * H.U, 0.25]))
-    calls = draw(B.timed_calls(10, cfg, bdur, B.NAMES))
+    # 'same-key': one or two keys asked for again and again around the retention window (hits, expiry, re-requests
+    # landing in one batching window) - every caller must still be answered with its own key's outcome
+    calls = draw(B.timed_calls(10, cfg, bdur, B.NAMES[:draw(st.integers(1, 2))] if family == 'same-key' else B.NAMES,
+                               explicit_keys=family != 'same-key'))
+    two = draw(st.integers(0, 3)) == 0
+    if two:
+        for c in calls:
+            c['b'] = draw(st.integers(0, 1))
     keys = sorted({c['key'] if c['key'] is not None else c['name'] for c in calls})
     behave = {}
     for k in keys:
@@ -36,7 +44,7 @@ def _case(draw):
             behave[k] = kind
     return {'cfg': cfg, 'calls': calls, 'behave': behave, 'order': draw(st.sampled_from(['fwd', 'rev', 'rot'])),
             'bdur': bdur, 'idur': draw(st.sampled_from([0, 0, H.U, 4 * H.U])), 'mutate': None, 'fresh': 1,
-            'raise_type': draw(st.sampled_from(sorted(H.RAISE_TYPES)))}
+            'raise_type': draw(st.sampled_from(sorted(H.RAISE_TYPES))), 'two_batchers': two}
 
 
 def strategy(tier):
@@ -58,4 +66,6 @@ def run_case(case):
         cl.append('behave=' + k)
     if any(B.own_batch(hist, c) is None and c['outcome'] is not None for c in hist['callers']):
         cl.append('has-sharer')
+    if case.get('two_batchers'):
+        cl.append('two-batchers')
     return Result(viol, nt, cl, H.abbreviate(hist), {'steps': hist['steps']})
